@@ -88,7 +88,12 @@ func (h *hookRun) param(forAdd bool) def.TaskUpdateParam {
 		p.WorkId = option.Some("w")
 	}
 	if forAdd || h.r.Intn(2) == 0 {
-		p.ScheduledAt = option.Some(h.timeAt(1 + h.r.Intn(3)))
+		t := h.timeAt(1 + h.r.Intn(3))
+		if h.r.Intn(4) == 0 {
+			// sub-millisecond part: the repository stores the truncated time
+			t = t.Add(time.Duration(1+h.r.Intn(999_999)) * time.Nanosecond)
+		}
+		p.ScheduledAt = option.Some(t)
 	}
 	if h.r.Intn(2) == 0 {
 		p.Priority = option.Some(h.r.Intn(3) - 1)
